@@ -270,6 +270,57 @@ Theorem C08_redis_only_expiry : forall mx clk0 evs t k st' m' s x,
 Proof. exact redis_only_hit_before_expiry. Qed.
 Print Assumptions C08_redis_only_expiry.
 
+(* ------------------------------------------------------------------ round 6: the command stream of the redis tier *)
+
+(* What the redis tier SENDS.  [ct_store_cmd mx t eps k resp pk] is the command setLoop builds for a cacheCtl.Store at
+   wall time t whose AsyncStore runs eps later.  Whenever a command is sent at all, the response is present, not
+   truncated and packed, and the command is
+        SET key value [NX]  PX p
+   with NX iff the response is an error response (rcode <> 0), and p the whole milliseconds of (policy lifetime - eps):
+   EVERY SET carries a PX, and that PX is the lifetime of the policy table (C08_lifetime_table) - for plain and for
+   set-if-absent stores alike. *)
+Theorem C08_tier_store_command : forall mx t eps k resp pk c,
+  ct_store_cmd mx t eps k resp pk = Some c ->
+  exists m px, resp = Some m /\ h_tc (m_hdr m) = false /\ pk = true /\
+    c = RSet k (negative m) (Some px) /\ 10 < px /\
+    px * MILLI <= msg_lifetime mx m - eps < (px + 1) * MILLI.
+Proof. exact store_cmd_shape. Qed.
+Print Assumptions C08_tier_store_command.
+
+(* ... and the redis tier of the model after a Store IS the server having executed exactly that command (SET [NX] PX
+   semantics: [redis_exec]), in both configurations: C08_tier_expiry / C08_redis_only_expiry / C08_tier_negative_nx are
+   statements about the effect of this command stream on a server that honours NX and PX. *)
+Theorem C08_tier_store_is_command : forall hm mx st t eps k resp pk forever,
+  ct_red (fst (ctc_store hm mx st t eps k resp pk)) =
+  match ct_store_cmd mx t eps k resp pk with
+  | None => ct_red st
+  | Some c =>
+    match resp with
+    | Some m => redis_exec (ct_red st) (t + eps) (unix_floor t) (unix_floor (t + msg_lifetime mx m)) m c forever
+    | None => ct_red st
+    end
+  end.
+Proof. exact store_red_is_exec. Qed.
+Print Assumptions C08_tier_store_is_command.
+
+(* a key written by the command of a Store is gone from the server before fetch + lifetime *)
+Theorem C08_tier_command_expiry : forall mx t eps k m pk c r forever e t2,
+  0 <= eps -> ct_store_cmd mx t eps k (Some m) pk = Some c ->
+  redis_lookup (redis_exec r (t + eps) (unix_floor t) (unix_floor (t + msg_lifetime mx m)) m c forever) t2 k = Some e ->
+  re_msg e = m -> ct_rfind k r = None ->
+  t2 < t + msg_lifetime mx m.
+Proof. exact store_cmd_deadline. Qed.
+Print Assumptions C08_tier_command_expiry.
+
+(* REFUTED: a tier whose set-if-absent store sends  SET key value NX  WITHOUT PX.  On a server that (like redis) keeps
+   a key without expiry for ever - beyond every horizon [forever] - the (error) answer is served at every later time:
+   in particular lifetime + 2 s after the fetch, whatever the lifetime of the policy table was. *)
+Theorem C08_nx_without_px_refuted : forall r now s x v k forever t2,
+  ct_rfind k r = None -> now <= t2 < now + forever ->
+  redis_lookup (redis_exec r now s x v (RSet k true None) forever) t2 k = Some (mkREntry s x v (now + forever)).
+Proof. exact nx_without_px_serves_forever. Qed.
+Print Assumptions C08_nx_without_px_refuted.
+
 (* ------------------------------------------------------------------ never cached *)
 
 (* an absent (nil) or truncated response: Store returns before touching the backend, in every cp_state *)
@@ -453,3 +504,21 @@ Example C08_observation_cross_tier :
       CtGet (ms 1000900) 1 ])) =
   [ [0]; [3; 60]; [1]; [3; 5]; [6; 1000500; 1005500; 32768] ].
 Proof. vm_compute. reflexivity. Qed.
+
+(* round 6: the commands of one positive and three error answers (default maximum): SET PX 59999 / SET NX PX 999 (SERVFAIL)
+   / SET NX PX 29999 (NXDOMAIN) / SET NX PX 4999 (REFUSED); a SERVFAIL stored NX without PX is still there an hour later *)
+Definition show_cmd (c : option redis_cmd) : list Z :=
+  match c with
+  | Some (RSet _ nx (Some p)) => [if nx then 1 else 0; p]
+  | Some (RSet _ nx None) => [if nx then 1 else 0; -1]
+  | _ => []
+  end.
+Example C08_example_commands :
+  map (fun m => show_cmd (ct_store_cmd H6 (ms 1000250) 1000 1 (Some m) true))
+      [ex_pos60; ex_msg 2 false []; ex_nx; ex_msg 5 false [7]%N; ex_msg 0 true [60]%N] =
+  [ [0; 59999]; [1; 999]; [1; 29999]; [1; 4999]; [] ] /\
+  (exists e, redis_lookup (redis_exec [] (ms 1000250) (ms 1000000) (ms 1001000) (ex_msg 2 false []) (RSet 1 true None)
+                                      (24 * 3600 * SECOND)) (ms 4600250) 1 = Some e) /\
+  redis_lookup (redis_exec [] (ms 1000250) (ms 1000000) (ms 1001000) (ex_msg 2 false []) (RSet 1 true (Some 999))
+                           (24 * 3600 * SECOND)) (ms 1001250) 1 = None.
+Proof. vm_compute. split; [reflexivity|]. split; [eexists; reflexivity|reflexivity]. Qed.
